@@ -327,12 +327,14 @@ def stop_obligations(it, w, key, v, how):
     p.oblige(f"{key}/exit/C14/terminal-event-carries-delivered-stop-reason",
              z3.And(g["n_term"] == 1, z3.Not(g["term_reason_none"]), g["term_reason"] == rv), prop="C14")
     p.oblige(f"{key}/exit/C14/terminal-event-describes-final-failure",
-             z3.Implies(z3.And(rv != R("ABORTED")),
+             z3.Implies(z3.And(rv != R("ABORTED"), g["last_op_was_failure"]),
                         z3.And(z3.Not(g["term_class_none"]), g["term_class"] == g["last_cls"],
                                z3.Not(g["term_cause_none"]), g["term_cause"] == g["last_cause"],
                                z3.Implies(g["last_cause"] == z3.StringVal("exception"),
                                           z3.And(z3.Not(g["term_exc_none"]), g["term_exc"] == g["fail_ident"])),
                                z3.Implies(g["last_cause"] == z3.StringVal("result"), g["term_exc_none"]))), prop="C14")
+    p.oblige(f"{key}/exit/C14/no-failure=>event-has-no-failure-tags",
+             z3.Implies(z3.Not(g["last_op_was_failure"]), z3.And(g["term_class_none"], g["term_exc_none"], g["term_cause_none"])), prop="C14")
     for rname, evname in EVENT_OF_REASON.items():
         p.oblige(f"{key}/exit/C14/event-name-matches-reason/{rname}",
                  z3.Implies(rv == R(rname), g["term_event"] == z3.StringVal(evname)), prop="C14")
